@@ -42,6 +42,10 @@ fn spec_str(r: &RuleSpec) -> String {
 
 pub struct Decisions;
 impl Group for Decisions {
+    // a real server / real sockets with read timeouts: a failure counts if it shows again when the same case is re-run
+    fn timing_sensitive(&self) -> bool {
+        true
+    }
     fn name(&self) -> &'static str {
         "c13.respond"
     }
